@@ -33,7 +33,9 @@ def forbiddenShapes : List String :=
    "register_cb_raw_fn_param", "register_cb_sandbox_by_value", "callback_return_raw_ptr_via_tainted",
    "tainted_struct_field_from_raw", "tvol_struct_field_from_raw", "tainted_ptrarr_elem_from_raw",
    "tvol_ptrarr_elem_from_raw", "tvol_deref_store_raw", "tvol_index_store_raw", "invoke_raw_array_arg",
-   "invoke_raw_string_arg", "invoke_app_pointer_wrong_sandbox"]
+   "invoke_raw_string_arg", "invoke_app_pointer_wrong_sandbox", "internal_factory_raw_ptr",
+   "internal_factory_raw_fn", "tagged_ctor_raw_ptr", "tainted_raw_value_ref_write", "tvol_sandbox_value_ref_write",
+   "tvol_default_ctor", "tvol_copy_ctor", "tainted_reinterpret_from_raw"]
 
 def accepts (name : String) : Option Bool := (sinks.find? fun r => r.1 == name).map fun r => r.2.2
 
